@@ -7,6 +7,7 @@ from authlib.common.urls import urlparse
 
 from .errors import DuplicatedOAuthProtocolParameterError
 from .errors import InsecureTransportError
+from .errors import InvalidRequestError
 from .signature import SIGNATURE_TYPE_BODY
 from .signature import SIGNATURE_TYPE_HEADER
 from .signature import SIGNATURE_TYPE_QUERY
@@ -103,7 +104,7 @@ def _parse_authorization_header(headers):
             return auth_params, realm
         except (IndexError, ValueError):
             pass
-    raise ValueError("Malformed authorization header")
+    raise InvalidRequestError("Malformed authorization header")
 
 
 def _parse_oauth_params(query_params, body_params, auth_params):
